@@ -113,9 +113,17 @@ PB0(t) == /\ pc[t] = "pb0" /\ Stp(t, "pb1", [lk EXCEPT ![Rest(L(t).item)] = U(S(
 PB1(t) == /\ pc[t] = "pb1"
           /\ Stp(t, "tk_a", lk, self, [L(t) EXCEPT !.link = self[S(0)], !.exp = self[S(0)], !.mon = S(0), !.okL = "pb3", !.failL = "pb1"], bad)
 PB3(t) == /\ pc[t] = "pb3" /\ Stp(t, "pb4", lk, [self EXCEPT ![L(t).item] = L(t).link], L(t), bad)
-PB4(t) == /\ pc[t] = "pb4" /\ Stp(t, "pb5", lk, [self EXCEPT ![S(0)] = Rest(L(t).item)], L(t), bad)
+\* HintAfterUnlock (default FALSE; overridden only in AtomicIntrusiveListHint.cfg) is a deliberately WRONG variant used as a
+\* non-vacuity check: the tail hint sentinel_.self is swung after the predecessor link has been unlocked instead of inside its
+\* critical section.  try_lock_checking's re-validation is then unsound (a second pusher takes the same link; a popper
+\* resets the hint which the late store then points into the popped node) and TLC must refute NoItemLost / SentinelBack.
+HintAfterUnlock == FALSE
+PB4(t) == /\ pc[t] = "pb4"
+          /\ IF HintAfterUnlock THEN Stp(t, "pb5", [lk EXCEPT ![L(t).link] = U(L(t).item)], self, L(t), TL(L(t).link))
+                                ELSE Stp(t, "pb5", lk, [self EXCEPT ![S(0)] = Rest(L(t).item)], L(t), bad)
 PB5(t) == /\ pc[t] = "pb5"
-          /\ StpO(t, "next", [lk EXCEPT ![L(t).link] = U(L(t).item)], self, L(t), TL(L(t).link), <<"push", 1>>)
+          /\ IF HintAfterUnlock THEN StpO(t, "next", lk, [self EXCEPT ![S(0)] = Rest(L(t).item)], L(t), bad, <<"push", 1>>)
+                                ELSE StpO(t, "next", [lk EXCEPT ![L(t).link] = U(L(t).item)], self, L(t), TL(L(t).link), <<"push", 1>>)
 \* ---- pop_front of list L.lst
 PF1(t) == /\ pc[t] = "pf1" /\ ~lk[Hd(L(t).lst)].locked
           /\ LET f == lk[Hd(L(t).lst)].val IN
